@@ -7,6 +7,8 @@
 (* and repetition of requests, clear_cache and re-set_up.                  *)
 (*                                                                         *)
 (* The state of one matrix object is a record st:                          *)
+(*   impl       "RayTracing" | "Interpolation": the class of the object     *)
+(*              (they differ in the set-up life cycle only, see below)      *)
 (*   cache      set of entries [view, seg, key, bin, row]: the maps        *)
 (*              cache_collection[view][segment] : key -> row               *)
 (*              (bin is a ghost field: the bin the row was stored for)     *)
@@ -80,12 +82,22 @@ TransformId(op, row) == [gen |-> row.gen, bin |-> BinMap(op, row.bin)]
 NoRow == [gen |-> -1]
 
 (* ------------------------------ the object ------------------------------ *)
-NewMatrix(req, cacheOn, basicOnly) ==
-  [cache |-> {}, cacheOn |-> cacheOn, basicOnly |-> basicOnly, done |-> FALSE, gen |-> 0, req |-> req,
+NewMatrix(impl, req, cacheOn, basicOnly) ==
+  [impl |-> impl, cache |-> {}, cacheOn |-> cacheOn, basicOnly |-> basicOnly, done |-> FALSE, gen |-> 0, req |-> req,
    esw |-> NoSym, c |-> [N |-> 0], g |-> [nppr |-> 0]]
 \* defaults of the class: every symmetry on, cache enabled, only basic bins stored
 AllSym == [s90 |-> TRUE, s180 |-> TRUE, sseg |-> TRUE, ss |-> TRUE, sz |-> TRUE]
-DefaultMatrix == NewMatrix(AllSym, TRUE, TRUE)
+DefaultMatrix == NewMatrix("RayTracing", AllSym, TRUE, TRUE)
+(* Life cycle per class.                                                   *)
+(* ProjMatrixByBinUsingRayTracing keeps an "already set up" flag: set_up   *)
+(* is "skipped as already set-up with same characteristics", every setter  *)
+(* that changes a value clears the flag and a computation with a cleared   *)
+(* flag is refused; set_up ends with clear_cache (call-out).               *)
+(* ProjMatrixByBinUsingInterpolation has no such flag: set_up is never     *)
+(* skipped and re-creates the cache maps (no clear_cache call-out); its    *)
+(* switches and cache mode are set by parsing and the switches take effect *)
+(* at the next set_up.                                                      *)
+HasSetUpFlag(st) == st.impl = "RayTracing"
 
 Out(st, hooks, ret) == [st |-> st, hooks |-> hooks, ret |-> ret]
 
@@ -117,14 +129,19 @@ DoStoreOnlyBasic(st, v) == Out([st EXCEPT !.basicOnly = v], << >>, NoRow)
 \* clear_cache: "Remove all elements from the cache"
 DoClear(st) == Out([st EXCEPT !.cache = {}], << EvClear >>, NoRow)
 \* set_do_symmetry_xxx: a changed switch requires a new set_up
-DoSetSwitches(st, req) == Out([st EXCEPT !.req = req, !.done = @ /\ req = st.req], << >>, NoRow)
+DoSetSwitches(st, req) == Out([st EXCEPT !.req = req, !.done = IF HasSetUpFlag(st) THEN @ /\ req = st.req ELSE @], << >>, NoRow)
+\* parsing the parameters of the object: switches and cache mode (Interpolation)
+DoParse(st, req, cacheOn, basicOnly) == Out([st EXCEPT !.req = req, !.cacheOn = cacheOn, !.basicOnly = basicOnly], << >>, NoRow)
 \* set_up(gen, c, g): "skipped as already set-up with same characteristics", otherwise the cache is
 \* emptied and geometry and symmetries are replaced
-SetUpSkipped(st, gen) == st.done /\ gen = st.gen
+SetUpSkipped(st, gen) == HasSetUpFlag(st) /\ st.done /\ gen = st.gen
 DoSetUp(st, gen, c, g) ==
   IF SetUpSkipped(st, gen) THEN Out(st, << >>, NoRow)
   ELSE Out([st EXCEPT !.cache = {}, !.done = TRUE, !.gen = gen, !.c = c, !.g = g,
-                      !.esw = EffectiveSwitches(c, g, st.req)], << EvClear >>, NoRow)
+                      !.esw = EffectiveSwitches(c, g, st.req)], IF HasSetUpFlag(st) THEN << EvClear >> ELSE << >>, NoRow)
+\* set_up reported an error (a geometry the class documents as unsupported): nothing the object
+\* holds may be used until a set_up succeeds - modelled as an object without geometry (gen = -1)
+DoSetUpRefused(st) == Out([st EXCEPT !.cache = {}, !.done = FALSE, !.gen = -1], << >>, NoRow)
 
 \* get_proj_matrix_elems_for_one_bin, step by step.  ret = NoRow: error "used before calling setup"
 DoGet(st, b) ==
